@@ -13,11 +13,12 @@
 #include "x_json_model.h"
 #include "spec/C04_rfc8259.h"
 #include "contracts/C04_string.h"
+#include "contracts/C04_number.h"
 #include "x_json_access.c"
 #include "x_json_serialize.c"
 #include "x_json_parse.c"
 
-const char* g_gtext; size_t g_glen; unsigned g_ndigits; int g_c04_dummy;
+const char* g_gtext; size_t g_glen; unsigned g_ndigits; size_t g_dstart; uint64_t g_mag; uint64_t g_pref[20]; int g_c04_dummy;
 
 /* the option bits the header documents as "not standard-compliant" */
 #define C04_NONSTANDARD (SerializeOption_HEX_INTEGERS | SerializeOption_ONE_CHARACTER_TRIVIAL_CONSTANTS | SerializeOption_HEX_ESCAPE_CODES | SerializeOption_ESCAPE_CONTROLS_ONLY)
